@@ -34,6 +34,39 @@ import (
 	"verifharness/lib/memnet"
 )
 
+// ------------------------------------------------------------------ watchdog
+//
+// Every call into the library that the harness waits for runs under guard: none of them does real I/O (in-memory
+// transports, loopback sockets) and each takes microseconds, so a call that has not come back after hangBound is
+// blocked for good.  That is a verdict (key ".../hang:<call>"), never a stuck run: the summary is printed and the
+// process ends.
+const hangBound = 45 * time.Second
+
+var (
+	hangSum *hx.Summary // where a hang is reported
+	onHang  func()      // flushes what the stage has written so far
+)
+
+func guard(key, what string, c interface{}, f func()) {
+	done := make(chan struct{})
+	go func() {
+		defer close(done)
+		f()
+	}()
+	t := time.NewTimer(hangBound)
+	defer t.Stop()
+	select {
+	case <-done:
+	case <-t.C:
+		hangSum.Mis(key, what+fmt.Sprintf(": no return within %v", hangBound), c)
+		if onHang != nil {
+			onHang()
+		}
+		hangSum.Print()
+		os.Exit(0)
+	}
+}
+
 // ------------------------------------------------------------------ header walker (the harness' own, 12 octets)
 
 type hdr struct {
@@ -443,17 +476,18 @@ type vec struct {
 	IfNot  outRec `json:"ifnot"`
 	Req    reqRec `json:"req"`
 	// route
-	Pats     []hx.B `json:"pats"`
-	PatIdx   []int  `json:"patidx"`
-	HasQ     bool   `json:"hasq"`
-	QName    hx.B   `json:"qname"`
-	QType    int    `json:"qtype"`
-	Cls      string `json:"cls"`
-	Admitted []int  `json:"admitted"`
-	Refused  bool   `json:"refused"`
-	Past     []int  `json:"past"`
-	Exp      expRec `json:"exp"`
-	ExtraQ   []hx.B `json:"extraq"` // names of further questions behind the first
+	Pats         []hx.B `json:"pats"`
+	PatIdx       []int  `json:"patidx"`
+	HasQ         bool   `json:"hasq"`
+	QName        hx.B   `json:"qname"`
+	QType        int    `json:"qtype"`
+	Cls          string `json:"cls"`
+	Admitted     []int  `json:"admitted"`
+	Refused      bool   `json:"refused"`
+	Past         []int  `json:"past"`
+	Exp          expRec `json:"exp"`
+	ExtraQ       []hx.B `json:"extraq"`       // names of further questions behind the first
+	EmptyRefused bool   `json:"emptyrefused"` // the spec's verdict for the same request when no pattern is registered
 	// filled by the harness for the replay file
 	Transport string `json:"transport,omitempty"`
 	Seg       string `json:"seg,omitempty"` // tcp: how the octets were segmented
@@ -680,25 +714,56 @@ func buildMux(v *vec, calls *[]int, mu *sync.Mutex) *dns.ServeMux {
 	return mux
 }
 
-func routeDirect(v *vec, sum *hx.Summary) {
-	var calls []int
-	var mu sync.Mutex
-	mux := buildMux(v, &calls, &mu)
+// one ServeDNS call on mux with a recording writer; returns what judgeRoute needs
+func serveOnce(mux *dns.ServeMux, v *vec, sum *hx.Summary, what string) (hs []hdr, qs [][]dns.Question, ok bool) {
 	w := &recWriter{}
-	mux.ServeDNS(w, reqOf(v))
-	var hs []hdr
-	var qs [][]dns.Question
+	guard("mux/hang:ServeDNS", "ServeMux.ServeDNS ("+what+") does not return", v, func() { mux.ServeDNS(w, reqOf(v)) })
 	for _, m := range w.msgs {
 		b, err := m.Pack()
 		if err != nil {
 			sum.Mis("mux/refused-unpackable", "REFUSED reply does not pack: "+err.Error(), v)
-			return
+			return nil, nil, false
 		}
 		h, _ := walk(b)
 		hs = append(hs, h)
 		qs = append(qs, m.Question)
 	}
-	judgeRoute(v, "direct", calls, hs, qs, sum)
+	return hs, qs, true
+}
+
+// The life of a multiplexer: a request while nothing has ever been registered, the registrations, the request the
+// vector is about, the removals, a request when nothing is registered any more.
+func routeDirect(v *vec, sum *hx.Summary) {
+	var calls []int
+	var mu sync.Mutex
+	mux := dns.NewServeMux()
+	none := *v
+	none.Pats, none.PatIdx, none.Admitted, none.Past, none.Refused = nil, nil, nil, nil, v.EmptyRefused
+	if hs, qs, ok := serveOnce(mux, v, sum, "nothing registered yet"); ok {
+		judgeRoute(&none, "direct:never-populated", calls, hs, qs, sum)
+	}
+	calls = nil
+	for k, p := range v.Pats {
+		idx := v.PatIdx[k]
+		guard("mux/hang:Handle", "ServeMux.HandleFunc after a request on the still empty multiplexer does not return", v, func() {
+			mux.HandleFunc(p.String(), func(w dns.ResponseWriter, r *dns.Msg) {
+				mu.Lock()
+				calls = append(calls, idx)
+				mu.Unlock()
+				w.Write(handlerReply(r.Id))
+			})
+		})
+	}
+	if hs, qs, ok := serveOnce(mux, v, sum, "patterns registered"); ok {
+		judgeRoute(v, "direct", calls, hs, qs, sum)
+	}
+	calls = nil
+	for _, p := range v.Pats {
+		guard("mux/hang:HandleRemove", "ServeMux.HandleRemove does not return", v, func() { mux.HandleRemove(p.String()) })
+	}
+	if hs, qs, ok := serveOnce(mux, v, sum, "everything removed again"); ok {
+		judgeRoute(&none, "direct:all-removed", calls, hs, qs, sum)
+	}
 }
 
 // the same through a real server on the in-memory packet conn: the reply is what a client sees
@@ -753,6 +818,7 @@ func routeServer(v *vec, sum *hx.Summary) {
 
 func replay(path string) {
 	var sum hx.Summary
+	hangSum = &sum
 	r := &rec{}
 	tcp := newTCPRig(r)
 	seen := map[string]bool{}
@@ -778,11 +844,15 @@ func replay(path string) {
 				switch tr {
 				case "pc":
 					sum.Evaluations++
-					judgePkt(v, tr, probePC(r, pkt), &sum)
+					var o obs
+					guard("server-pc/hang:serve", "server on the in-memory PacketConn: injected datagram is not served to the end / Shutdown does not return", v, func() { o = probePC(r, pkt) })
+					judgePkt(v, tr, o, &sum)
 				case "tcp":
 					if v.Seg == "" {
 						sum.Evaluations++
-						judgePkt(v, tr, tcp.probe(pkt), &sum)
+						var o obs
+						guard("server-tcp/hang:serve", "server on the in-memory listener: the sentinel behind the message is never answered", v, func() { o = tcp.probe(pkt) })
+						judgePkt(v, tr, o, &sum)
 					}
 					// the outcome does not depend on how the stream is cut into segments
 					segs := segmentations(len(pkt))
@@ -797,7 +867,9 @@ func replay(path string) {
 						nseg++
 						w := *v
 						w.Seg = name
-						judgePkt(&w, tr, tcp.probeSeg(pkt, segs[name]), &sum)
+						var o obs
+						guard("server-tcp/hang:serve", "server on the in-memory listener: connection is not served to the end", &w, func() { o = tcp.probeSeg(pkt, segs[name]) })
+						judgePkt(&w, tr, o, &sum)
 					}
 				case "udp":
 					udpJobs = append(udpJobs, v)
@@ -812,7 +884,7 @@ func replay(path string) {
 			}
 			if v.Transport == "server" || (v.Transport == "" && (i%5 == 0 || (len(v.ExtraQ) > 0 && i%2 == 0))) {
 				sum.Evaluations++
-				routeServer(v, &sum)
+				guard("mux/hang:server", "server with the multiplexer as handler does not finish the request", v, func() { routeServer(v, &sum) })
 			}
 		default:
 			hx.Die("unknown vector kind %q", v.Kind)
@@ -833,7 +905,8 @@ func replay(path string) {
 				lr := &rec{}
 				for v := range jobs {
 					lost := 0
-					o := udpStable(lr, v, v.Pkt.Bytes(), &lost)
+					var o obs
+					guard("server-udp/hang:serve", "server on the loopback socket does not finish / Shutdown does not return", v, func() { o = udpStable(lr, v, v.Pkt.Bytes(), &lost) })
 					mu.Lock()
 					nudp++
 					nlost += lost
@@ -1011,6 +1084,7 @@ func recordPkt(out string, n int) {
 	rng := hx.Rand()
 	w := hx.NewWriter(out)
 	var sum hx.Summary
+	hangSum, onHang = &sum, w.Close
 	r := &rec{}
 	tcp := newTCPRig(r)
 	received := 0
@@ -1029,16 +1103,21 @@ func recordPkt(out string, n int) {
 		var o obs
 		switch tr {
 		case "pc":
-			o = probePC(r, pkt)
+			guard("server-pc/hang:serve", "server on the in-memory PacketConn does not finish", hx.FromBytes(pkt), func() { o = probePC(r, pkt) })
 		case "tcp":
-			if rng.Intn(2) == 0 {
-				o = tcp.probe(pkt)
-			} else {
-				name := segNames[rng.Intn(len(segNames))]
-				o = tcp.probeSeg(pkt, segmentations(len(pkt))[name])
+			seg := ""
+			if rng.Intn(2) == 1 {
+				seg = segNames[rng.Intn(len(segNames))]
 			}
+			guard("server-tcp/hang:serve", "server on the in-memory listener does not finish (segments: "+seg+")", hx.FromBytes(pkt), func() {
+				if seg == "" {
+					o = tcp.probe(pkt)
+				} else {
+					o = tcp.probeSeg(pkt, segmentations(len(pkt))[seg])
+				}
+			})
 		case "udp":
-			o = probeUDP(r, pkt)
+			guard("server-udp/hang:serve", "server on the loopback socket does not finish", hx.FromBytes(pkt), func() { o = probeUDP(r, pkt) })
 			if o.Lost {
 				// not an observation; the totals must not count it either
 				r.totalH.Add(int64(-o.Handled))
@@ -1107,6 +1186,7 @@ func recordMux(out string, rounds int) {
 	rng := hx.Rand()
 	w := hx.NewWriter(out)
 	var sum hx.Summary
+	hangSum, onHang = &sum, w.Close
 	const G = 8
 	opsPer := 6
 	for round := 0; round < rounds; round++ {
@@ -1118,13 +1198,34 @@ func recordMux(out string, rounds int) {
 				*tw.hit = append(*tw.hit, idx)
 			}
 		}
+		// prologue, sequential: a request while nothing has ever been registered, then the initial registrations --
+		// logged like every other operation (the round starts from the empty set)
+		var seq atomic.Int64
+		var pro []muxEvent
+		{
+			name := muxNames[rng.Intn(len(muxNames))]
+			qt := []uint16{dns.TypeA, dns.TypeDS}[rng.Intn(2)]
+			m := new(dns.Msg)
+			m.SetQuestion(name, qt)
+			var hit []int
+			tw := &tagWriter{hit: &hit}
+			s := seq.Add(1)
+			guard("mux/hang:ServeDNS", "ServeDNS on a multiplexer on which nothing was ever registered does not return", name, func() { mux.ServeDNS(tw, m) })
+			e := seq.Add(1)
+			res := 0
+			if len(hit) > 0 {
+				res = hit[0]
+			}
+			pro = append(pro, muxEvent{Ev: "serve", G: -1, QName: hx.FromString(name), QType: int(qt), Start: s, End: e, Res: res, Calls: len(hit) + len(tw.msgs)})
+		}
 		for i := range muxPats {
 			if rng.Intn(2) == 0 {
-				init = append(init, i+1)
-				mux.Handle(muxPats[i], mk(i+1))
+				s := seq.Add(1)
+				guard("mux/hang:Handle", "Handle after a request on the still empty multiplexer does not return", muxPats[i], func() { mux.Handle(muxPats[i], mk(i+1)) })
+				e := seq.Add(1)
+				pro = append(pro, muxEvent{Ev: "handle", G: -1, Pat: i + 1, Start: s, End: e})
 			}
 		}
-		var seq atomic.Int64
 		evs := make([][]muxEvent, G)
 		seeds := make([]int64, G)
 		for g := range seeds {
@@ -1176,12 +1277,16 @@ func recordMux(out string, rounds int) {
 			}(g)
 		}
 		close(start)
-		wg.Wait()
-		n := 0
+		guard("mux/hang:concurrent", "8 goroutines doing Handle / HandleRemove / ServeDNS do not all come back", round, wg.Wait)
+		n := len(pro)
 		for _, l := range evs {
 			n += len(l)
 		}
 		w.Emit(muxEvent{Ev: "round", Init: init, N: n})
+		for _, e := range pro {
+			w.Emit(e)
+			sum.Evaluations++
+		}
 		for _, l := range evs {
 			for _, e := range l {
 				w.Emit(e)
